@@ -489,10 +489,10 @@ def _bind_libm():
         return
     def f1(name):
         f = getattr(lm, name); f.restype = ctypes.c_double; f.argtypes = [ctypes.c_double]
-        return lambda x: f(float(x))
+        return f
     def f2(name):
         f = getattr(lm, name); f.restype = ctypes.c_double; f.argtypes = [ctypes.c_double, ctypes.c_double]
-        return lambda a, b: f(float(a), float(b))
+        return f
     for py, c in (("exp", "exp"), ("exp2", "exp2"), ("expm1", "expm1"), ("cbrt", "cbrt"), ("sqrt", "sqrt"),
                   ("ln", "log"), ("log", "log"), ("log10", "log10"), ("log2", "log2"), ("log1p", "log1p"),
                   ("cosh", "cosh"), ("sinh", "sinh"), ("tanh", "tanh"), ("acosh", "acosh"), ("asinh", "asinh"),
@@ -500,12 +500,14 @@ def _bind_libm():
                   ("asin", "asin"), ("atan", "atan"), ("erf", "erf"), ("erfc", "erfc"), ("tgamma", "tgamma"),
                   ("lgamma", "lgamma")):
         try:
-            CXX_F1[py] = f1(c)
+            # python's function first: it decides the exceptions (domain / pole / overflow) exactly as before;
+            # the value is the C library's
+            CXX_F1[py] = (lambda pf, cf: (lambda x: (pf(x), cf(float(x)))[1]))(CXX_F1[py], f1(c))
         except AttributeError:
             pass
     for py, c in (("hypot", "hypot"), ("atan2", "atan2"), ("std::pow", "pow")):
         try:
-            CXX_F2[py] = f2(c)
+            CXX_F2[py] = (lambda pf, cf: (lambda a, b: (pf(a, b), cf(float(a), float(b)))[1]))(CXX_F2[py], f2(c))
         except AttributeError:
             pass
 
